@@ -179,13 +179,18 @@ class _Env:
         env = self
 
         async def c16_rail(rail, text=None):
+            # besides its result every rail action reports a bookkeeping value that never changes after the first call: the result
+            # must reach the flow although ANOTHER reported key is unchanged (ActionResult.context_updates)
+            from nemoguardrails.actions.actions import ActionResult
             env.calls.append((rail, text))
             v = env.ver.get(rail, "A")
             if rail == "ret1" or v == "A":
-                return "__c16_allow__"
-            if v == "B":
-                return "__c16_block__"
-            return _rw(rail, text)
+                out = "__c16_allow__"
+            elif v == "B":
+                out = "__c16_block__"
+            else:
+                out = _rw(rail, text)
+            return ActionResult(return_value=out, context_updates={"c16_rails_seen": True})
 
         self.app.register_action(c16_rail, "c16_rail")
 
